@@ -307,6 +307,9 @@ class SimInverter:
             n = pl[2]
             if self.mode == "stamp":
                 return codec.aa55_response(rtype, self.stamp_payload(reg, n, p.get("tx_index", 0)))
+            if getattr(self, "aa55_read_payload", None) is not None:
+                # AA55 read answers carry their own length byte; real devices answer e.g. a whole 8-byte group for count 1
+                return codec.aa55_response(rtype, self.aa55_read_payload)
             return codec.aa55_response(rtype, self.get_aa55_bytes(reg, n))
         if cmd == 0x0239:
             # payload: reg(2) n(1) data
